@@ -619,13 +619,34 @@ func c17lookups(c *core.Ctx, rng *core.Rng) {
 			_, u := kt.gen()
 			lookups = append(lookups, u)
 		}
-		for _, backend := range []string{"reflect-slice", "node-slice"} {
+		for _, backend := range []string{"reflect-slice", "node-slice", "json-doc", "xml-doc"} {
 			data := map[string]interface{}{listName: append([]interface{}{}, entries...)}
 			var root node.Node
-			if backend == "reflect-slice" {
+			switch backend {
+			case "reflect-slice":
 				root = nodeutil.ReflectChild(data)
-			} else {
+			case "node-slice":
 				root = &nodeutil.Node{Object: data}
+			default:
+				// the same list as a document, read by the library's readers (keys are matched there too)
+				if kt.yang == "string" {
+					continue // (the hostile string keys are C08's and C19's)
+				}
+				js, err := nodeutil.WriteJSON(node.NewBrowser(m, nodeutil.ReflectChild(data)).Root())
+				if err != nil {
+					continue
+				}
+				if backend == "json-doc" {
+					root, err = nodeutil.ReadJSON(js)
+				} else {
+					var xs string
+					if xs, err = nodeutil.WriteXMLDoc(node.NewBrowser(m, nodeutil.ReflectChild(data)).Root(), false); err == nil {
+						root, err = nodeutil.ReadXMLDoc(strings.NewReader(xs))
+					}
+				}
+				if err != nil || root == nil {
+					continue
+				}
 			}
 			b := node.NewBrowser(m, root)
 			for _, u := range lookups {
@@ -753,6 +774,14 @@ func c17find(b *node.Browser, list, key string) (res string) {
 	}
 	if v == nil {
 		return "nil-d"
+	}
+	// the path the selection prints for itself leads to the same entry
+	again, err := b.Root().Find(sel.Path.StringNoModule())
+	if err != nil || again == nil {
+		return fmt.Sprintf("found, but its own path %q finds (%v, %v)", sel.Path.StringNoModule(), again != nil, err)
+	}
+	if v2, _ := again.GetValue("d"); v2 == nil || v2.String() != v.String() {
+		return fmt.Sprintf("found, but its own path %q finds the entry %v", sel.Path.StringNoModule(), v2)
 	}
 	return v.String()
 }
